@@ -117,7 +117,7 @@ def parse_directive_text(
         parse_warnings = result.warnings
         has_options_block = result.has_options
         options = result.options
-        body_lines = result.content.splitlines()
+        body_lines = result.content
         content_offset = len(content.splitlines()) - len(body_lines)
     else:
         parse_warnings = []
@@ -159,7 +159,8 @@ def parse_directive_text(
 
 @dataclass
 class _DirectiveOptions:
-    content: str
+    content: list[str]
+    """The lines of the content that follow the options block."""
     options: dict[str, Any]
     warnings: list[ParseWarnings]
     has_options: bool
@@ -177,26 +178,31 @@ def _parse_directive_options(
     :returns: (content, options, validation_errors)
     """
     options_block: None | str = None
+    # the remaining content is always a suffix of these lines
+    # (re-splitting a joined string would lose a trailing blank line,
+    # and with it the line offset of the body)
+    content_lines = content.splitlines()
     if content.startswith("---"):
         line = None if line is None else line + 1
-        content = "\n".join(content.splitlines()[1:])
+        content_lines = content_lines[1:]
+        content = "\n".join(content_lines)
         match = re.search(r"^-{3,}", content, re.MULTILINE)
         if match:
             options_block = content[: match.start()]
-            content = content[match.end() + 1 :]  # TODO advance line number
+            # the (whole) closing delimiter line ends the block
+            # TODO advance line number
+            content_lines = content_lines[options_block.count("\n") + 1 :]
         else:
             options_block = content
-            content = ""
+            content_lines = []
         options_block = dedent(options_block)
     elif content.lstrip().startswith(":"):
-        content_lines = content.splitlines()
         yaml_lines = []
         while content_lines:
             if not content_lines[0].lstrip().startswith(":"):
                 break
             yaml_lines.append(content_lines.pop(0).lstrip()[1:])
         options_block = "\n".join(yaml_lines)
-        content = "\n".join(content_lines)
 
     has_options_block = options_block is not None
 
@@ -222,7 +228,9 @@ def _parse_directive_options(
                     MystWarnings.DIRECTIVE_OPTION,
                 )
             )
-        return _DirectiveOptions(content, yaml_options, yaml_errors, has_options_block)
+        return _DirectiveOptions(
+            content_lines, yaml_options, yaml_errors, has_options_block
+        )
 
     validation_errors: list[ParseWarnings] = []
 
@@ -233,7 +241,7 @@ def _parse_directive_options(
             options = dict(_options)
         except TokenizeError as err:
             return _DirectiveOptions(
-                content,
+                content_lines,
                 options,
                 [
                     ParseWarnings(
@@ -256,7 +264,7 @@ def _parse_directive_options(
     if issubclass(directive_class, TestDirective):
         # technically this directive spec only accepts one option ('option')
         # but since its for testing only we accept all options
-        return _DirectiveOptions(content, options, [], has_options_block)
+        return _DirectiveOptions(content_lines, options, [], has_options_block)
 
     if additional_options:
         # The options block takes priority over additional options
@@ -303,7 +311,9 @@ def _parse_directive_options(
             )
         )
 
-    return _DirectiveOptions(content, new_options, validation_errors, has_options_block)
+    return _DirectiveOptions(
+        content_lines, new_options, validation_errors, has_options_block
+    )
 
 
 def parse_directive_arguments(
